@@ -59,7 +59,6 @@ SCAN_TB = [
 ]
 
 PROPS["C18"] = {
-    "claimed": False,
     "coq": "Properties/C18.v",
     "domains": ["scan"],
     "nontrivial": ["scan:L", "scan:S", "raw:"],
@@ -69,7 +68,16 @@ PROPS["C18"] = {
             "(every history polls the application at least once); distribution counts polls, probes, reaction classes, events and stable windows",
     "trusted_base": SCAN_TB,
     "technique": "Coq proof (induction over arbitrary histories on Gallina models of LiveList and DpScanner) + differential correspondence (transcript replay)",
-    "level_text": "placeholder",
+    "level_text": "Machine-checked theorems (Coq 8.16.1, closed under the global context), by induction over ARBITRARY histories (lists of "
+                  "environment reactions as functions of the probed address) and from any state with the cursor in range, about Gallina models of "
+                  "LiveList and DpScanner driven in the FDL call order: no panic; only 0..125 probed, +1 per completed probe, wrap 125->0 (closed form "
+                  "c+i mod 126); after any history and one stable sweep (a fortiori two) the live list is exactly R minus TS and the scanner's station "
+                  "set and last reported ident/master are exactly the answering peripherals'; every event is justified by the observation of its poll; "
+                  "the station set always equals the set told by the events (Discovered/Found and Lost strictly alternate per address) - for the live "
+                  "list under the stated hypothesis that answers are response telegrams, with the O1 deviation (bare SC marks without Discovered) proved "
+                  "as the only one and exhibited. Both models are tied to the crate on every run by replaying ~3600 generated histories (~600k polls: "
+                  "appear/disappear/ident change, lost replies, SC/token/request/wrong-SAP/short/undecodable answers, own address in the population) "
+                  "and comparing every request (wire bytes), event and station set; the theorems' oracles run on the crate's transcripts.",
     "level_note": "Trusted: Coq kernel, translator, extraction + OCaml driver, Rust harness (which also plays the environment); hand models validated "
                   "differentially, not verified; the FDL call contract (C15) is an assumption here.",
     "design_ref": "DESIGN.md section 4, C18",
